@@ -19,7 +19,7 @@ RULE = ("every PDAG(n) (per pair: none, ->, <-, --; cyclic directed layers inclu
         "of the random PDAGs (exception class must stay ValueError); 300 (quick) shaped 5-6 node PDAGs (2-3 parents into an "
         "undirected clique of 2-3); quick also runs the consequences on all DAG(5) with >=9 edges and 700 sampled DAG(5); identity-hashed ('obj') and other label "
         "families on all PDAG(n<=3), 120 shaped PDAGs and 60 DAG round trips; 300 dense (p=0.7-0.9) 6-8 node PDAGs / DAG round trips; "
-        "4 long PDAGs (150-200 nodes, recursion limit lowered to depth+120, HEAD is iterative; for these only raises-or-not, nodes, "
+        "4 long PDAGs (90-110 nodes, recursion limit lowered to depth+60, HEAD is iterative; for these only raises-or-not, nodes, "
         "acyclicity, skeleton and kept directed edges are checked — the v-structure check is cubic); edge attributes incl. weight "
         "0/None/nan. Oracle (all orientations of the undirected edges) when |U|<=12. "
         "distinct by canonical graph; non-trivial = PDAG has an undirected and a directed edge")
@@ -232,9 +232,9 @@ def gen_cases(tier, rng):
         yield {"kind": "dense", "mode": "pdag", "orc": 8, "g": gr.G(d["V"], D=[e for e in d["D"] if e not in und], U=und)}
     # long PDAGs under a lowered recursion limit (HEAD is iterative): model only, no validity re-check (cubic in n)
     for i in range(4 if tier == "quick" else 12):
-        d = c04.long_dag(rng, rng.randint(150, 200))
+        d = c04.long_dag(rng, rng.randint(90, 110))    # the extracted model is ~n^4 on Peano nats: keep n around 100
         und = [e for e in pattern_of(d)["U"] if rng.random() < 0.7]
-        yield {"kind": "deep", "mode": "pdag", "deep": True, "_reclimit": 120,
+        yield {"kind": "deep", "mode": "pdag", "deep": True, "_reclimit": 60,
                "g": gr.G(d["V"], D=[e for e in d["D"] if e not in und], U=und)}
     for g in gr.enum_pdag(3, acyclic=False):
         yield {"kind": "pdag3-repeat", "mode": "pdag", "g": g, "repeat": True, "attrs": rng.randint(0, 10 ** 6)}
